@@ -98,6 +98,25 @@ def random_abstract(rng, cmeta, allow_err):
             if rng.random() < 0.3: rule_prec[i] = rng.randint(-2, 3)
     return Abstract("rand", "S", rules, prec, rule_prec)
 
+def random_operators(rng, cmeta):
+    """operator grammars for C05 (grouping): S -> S op_i S (i < n) | atom [| l S r] [| u S], random precedence and
+    associativity per operator (sometimes none), sometimes explicit rule precedences (incl. 0 and negatives)"""
+    n = rng.choice([1, 2, 2, 3, 3])
+    ops = rng.sample("abde", n); rules = [("S", ["S", o, "S"]) for o in ops] + [("S", ["c"])]
+    shape = rng.random()
+    if shape < 0.25 and n <= 2: rules.append(("S", ["f", "S", "e" if "e" not in ops else "f"]))
+    elif shape < 0.45 and n <= 2: rules.append(("S", ["f", "S"]))
+    prec = {}
+    for o in ops:
+        if rng.random() < 0.85: prec[o] = (rng.randint(-2, 3), rng.choice([0, 1, 1, 2]))
+    if rng.random() < 0.3: prec["f"] = (rng.randint(-2, 4), rng.choice([0, 1, 2]))
+    rule_prec = {}
+    if rng.random() < 0.35:
+        for i in range(len(rules)):
+            if rng.random() < 0.4: rule_prec[i] = rng.randint(-2, 3)
+    rng.shuffle(rules) if rng.random() < 0.5 and not rule_prec else None
+    return Abstract("rand-ops", "S", rules, prec, rule_prec)
+
 # forced shapes named in the properties (each must fit carrier slots: arities <= 4, at most the available count per arity)
 FORCED = [
     Abstract("D1-mutual-left-rec", "S", [("S", ["C","A","a"]), ("S", ["b","C","B","c"]), ("A", ["B","d"]), ("A", ["e"]), ("B", ["A","f"]), ("B", ["a"]), ("C", [])]),
